@@ -465,6 +465,14 @@ func zzH_C02_session() {
 	} else {
 		verifReach("error")
 	}
+	if !upload {
+		// in a download the client is the side that saves: its "#EXIT:" line is its report of success ("Saved ...")
+		if msg := zzSessExitMessage(s); len(msg) > 0 {
+			verifAssert(verifFSKind(res.root+"/"+res.name) == 1 && zzSessFileIntact(res),
+				"the client reported the download as saved although the destination differs from the source")
+			verifReach("client-saved")
+		}
+	}
 	if res.hadOld && !res.overwrite {
 		old := verifFSContent(res.root + "/a")
 		verifAssert(string(old) == string(res.old), "a pre-existing file was modified")
